@@ -251,3 +251,18 @@ Lemma interrupt_nonvacuous :
   interrupted_footprints sk_hals_nnls (map fst nnls_args) nnls_heap = [[]; []; [2]; [2]; [2]; [2]; [2]; [2]; [2]; [2]; [2]] /\
   steps sk_hals_nnls = 10.
 Proof. vm_compute. split; reflexivity. Qed.
+
+(* ------------------------------------------------------------------ genuine defect (round 5): CPTensor.normalize(inplace=False)
+   is documented to return a normalised copy and leave the tensor alone; the code as it is ignores the option and
+   always assigns self.weights / self.factors (skeleton sk_cp_normalize_method).  With the receiver PROTECTED the
+   skeleton is rejected and does change the receiver; what still holds is cp_normalize_method_frame (nothing but the
+   receiver object changes); the candidate repair returns CPTensor(cp_normalize(self)), i.e. sk_cp_normalize: accepted. *)
+Lemma cp_normalize_inplace_false_refuted :
+  safe 1 sk_cp_normalize_method = false /\
+  exists (self : ref) (h0 : heap) (o : nat), o < length h0 /\
+    nth_error (snd (exec sk_cp_normalize_method (env0 [self], h0))) o <> nth_error h0 o.
+Proof.
+  split; [vm_compute; reflexivity|]. exists (RObj 0 []), method_heap, 0. split; [vm_compute; lia|]. vm_compute. discriminate.
+Qed.
+Lemma cp_normalize_repaired_safe : safe 1 sk_cp_normalize = true.
+Proof. vm_compute. reflexivity. Qed.
